@@ -72,68 +72,127 @@ Proof.
 Qed.
 
 (* ---------- the two port searches ---------- *)
-Lemma tcp_search_bound fx e udp l6 l4 ports : forall u le rp6 rp4 tv6 tv4 used le',
-  tcp_search fx e udp l6 l4 ports (Some u) le = TBound rp6 rp4 tv6 tv4 used le' ->
+(* a bind that went through was neither busy nor refused *)
+Lemma refused_at_none rf pr f ip port : refused_at rf pr f (Some (ip, port)) = None -> rf pr f ip port = None.
+Proof. unfold refused_at. destruct (rf pr f ip port); [discriminate|reflexivity]. Qed.
+
+Definition mbind_ok (e : env) (rf : renv) (pr : proto) (a6 a4 : option addr) : Prop :=
+  mbind e pr a6 a4 = true /\ refused_at rf pr V6 a6 = None /\ refused_at rf pr V4 a4 = None.
+
+Lemma mrefused_none e rf pr a6 a4 : mrefused e rf pr a6 a4 = None -> mbind e pr a6 a4 = true ->
+  mbind_ok e rf pr a6 a4.
+Proof.
+  unfold mrefused, mbind_ok. intros R B. split; [exact B|].
+  destruct (refused_at rf pr V6 a6); [discriminate|]. split; [reflexivity|].
+  unfold mbind in B. destruct (bind_one e pr V6 a6); [exact R|discriminate].
+Qed.
+
+Lemma tcp_search_bound fx e rf udp l6 l4 ports : forall u le rp6 rp4 tv6 tv4 used le',
+  tcp_search fx e rf udp l6 l4 ports (Some u) le = TBound rp6 rp4 tv6 tv4 used le' ->
   exists port, In port ports /\ pick l6 port = (tv6, rp6) /\ pick l4 port = (tv4, rp4) /\
-    mbind e TCP tv6 tv4 = true /\ (udp = true -> mbind e UDP tv6 tv4 = true) /\
+    mbind_ok e rf TCP tv6 tv4 /\ (udp = true -> mbind_ok e rf UDP tv6 tv4) /\
     (fx_F2 fx = true -> In rp6 used /\ In rp4 used).
 Proof.
   induction ports as [|a ports IH]; intros u le rp6 rp4 tv6 tv4 used le' H; cbn [tcp_search] in H.
   - discriminate H.
   - destruct (pick l6 a) as [x6 r6] eqn:P6. destruct (pick l4 a) as [x4 r4] eqn:P4.
-    destruct (mbind e TCP x6 x4 && (if udp then mbind e UDP x6 x4 else true)) eqn:B.
-    + injection H as <- <- <- <- <- <-. exists a.
-      apply andb_true_iff in B. destruct B as [B1 B2].
-      split; [left; reflexivity|]. split; [exact P6|]. split; [exact P4|].
-      split; [exact B1|]. split; [intros ->; exact B2|].
-      intros F2. rewrite F2. split; apply in_or_app; right; cbn; tauto.
-    + apply IH in H. destruct H as (port & Hin & H).
-      exists port. split; [right; exact Hin|exact H].
+    destruct (mrefused e rf TCP x6 x4) as [[f0 n0]|] eqn:R1; [discriminate H|].
+    destruct (udp && mbind e TCP x6 x4) eqn:U.
+    + destruct (mrefused e rf UDP x6 x4) as [[f0 n0]|] eqn:R2; [discriminate H|].
+      apply andb_true_iff in U. destruct U as [-> B1]. rewrite B1 in H. cbn [andb] in H.
+      destruct (mbind e UDP x6 x4) eqn:B2.
+      * injection H as <- <- <- <- <- <-. exists a.
+        split; [left; reflexivity|]. split; [exact P6|]. split; [exact P4|].
+        split; [apply mrefused_none; assumption|]. split; [intros _; apply mrefused_none; assumption|].
+        intros F2. rewrite F2. split; apply in_or_app; right; cbn; tauto.
+      * apply IH in H. destruct H as (port & Hin & H).
+        exists port. split; [right; exact Hin|exact H].
+    + destruct (mbind e TCP x6 x4 && (if udp then mbind e UDP x6 x4 else true)) eqn:B.
+      * injection H as <- <- <- <- <- <-. exists a.
+        apply andb_true_iff in B. destruct B as [B1 B2].
+        rewrite B1, andb_true_r in U. subst udp.
+        split; [left; reflexivity|]. split; [exact P6|]. split; [exact P4|].
+        split; [apply mrefused_none; assumption|]. split; [discriminate|].
+        intros F2. rewrite F2. split; apply in_or_app; right; cbn; tauto.
+      * apply IH in H. destruct H as (port & Hin & H).
+        exists port. split; [right; exact Hin|exact H].
 Qed.
 
-Lemma tcp_search_fail fx e udp l6 l4 ports : forall u le r,
+Lemma refused_result_fatal fx dns f n : fx_F131 fx = true -> exists m, refused_result fx dns f n = Fatal m.
+Proof.
+  intros F. unfold refused_result. rewrite F.
+  destruct (fam_eqb f V6 && (n =? EADDRNOTAVAIL)); eauto.
+Qed.
+
+Lemma tcp_search_fail fx e rf udp l6 l4 ports : forall u le r,
+  fx_F21 fx = true -> fx_F131 fx = true ->
+  tcp_search fx e rf udp l6 l4 ports (Some u) le = TFail r -> exists m, r = Fatal m.
+Proof.
+  induction ports as [|a ports IH]; intros u le r F F' H; cbn [tcp_search] in H.
+  - rewrite F in H. injection H as <-. eauto.
+  - destruct (pick l6 a) as [x6 r6]. destruct (pick l4 a) as [x4 r4].
+    destruct (match mrefused e rf TCP x6 x4 with Some x => Some x | None => _ end) as [[f0 n0]|].
+    + injection H as <-. apply refused_result_fatal. exact F'.
+    + destruct (mbind e TCP x6 x4 && (if udp then mbind e UDP x6 x4 else true)).
+      * discriminate H.
+      * eapply IH; eassumption.
+Qed.
+
+(* without refusals the search ends only because every port was busy *)
+Lemma tcp_search_fail_busy fx e udp l6 l4 ports : forall u le r,
   fx_F21 fx = true ->
-  tcp_search fx e udp l6 l4 ports (Some u) le = TFail r -> r = Fatal FPortsBusy.
+  tcp_search fx e no_refusal udp l6 l4 ports (Some u) le = TFail r -> r = Fatal FPortsBusy.
 Proof.
   induction ports as [|a ports IH]; intros u le r F H; cbn [tcp_search] in H.
   - rewrite F in H. injection H as <-. reflexivity.
   - destruct (pick l6 a) as [x6 r6]. destruct (pick l4 a) as [x4 r4].
+    replace (mrefused e no_refusal TCP x6 x4) with (@None (fam * N)) in H
+      by (unfold mrefused, refused_at, no_refusal; destruct x6 as [[? ?]|], x4 as [[? ?]|]; try reflexivity;
+          destruct (bind_one _ _ _ _); reflexivity).
+    replace (mrefused e no_refusal UDP x6 x4) with (@None (fam * N)) in H
+      by (unfold mrefused, refused_at, no_refusal; destruct x6 as [[? ?]|], x4 as [[? ?]|]; try reflexivity;
+          destruct (bind_one _ _ _ _); reflexivity).
+    replace (if udp && mbind e TCP x6 x4 then @None (fam * N) else None) with (@None (fam * N)) in H
+      by (destruct (udp && mbind e TCP x6 x4); reflexivity).
     destruct (mbind e TCP x6 x4 && (if udp then mbind e UDP x6 x4 else true)).
     + discriminate H.
     + eapply IH; eassumption.
 Qed.
 
-Lemma dns_search_bound fx e l6 l4 ports : forall used cur le dp6 dp4 dv6 dv4,
-  dns_search fx e l6 l4 ports used cur le = DBound dp6 dp4 dv6 dv4 ->
+Lemma dns_search_bound fx e rf l6 l4 ports : forall used cur le dp6 dp4 dv6 dv4,
+  dns_search fx e rf l6 l4 ports used cur le = DBound dp6 dp4 dv6 dv4 ->
   exists port, In port ports /\ ~ In port used /\ at_port l6 port = (dv6, dp6) /\
-    at_port l4 port = (dv4, dp4) /\ mbind e UDP dv6 dv4 = true.
+    at_port l4 port = (dv4, dp4) /\ mbind_ok e rf UDP dv6 dv4.
 Proof.
   induction ports as [|a ports IH]; intros used cur le dp6 dp4 dv6 dv4 H; cbn [dns_search] in H.
   - discriminate H.
   - destruct (memN a used) eqn:M.
     + apply IH in H. destruct H as (port & Hin & H). exists port. split; [right; exact Hin|exact H].
     + destruct (at_port l6 a) as [x6 d6] eqn:A6. destruct (at_port l4 a) as [x4 d4] eqn:A4.
+      destruct (mrefused e rf UDP x6 x4) as [[f0 n0]|] eqn:R; [discriminate H|].
       destruct (mbind e UDP x6 x4) eqn:B.
       * injection H as <- <- <- <-. exists a.
         split; [left; reflexivity|]. split; [apply memN_false; exact M|].
-        split; [exact A6|]. split; [exact A4|exact B].
+        split; [exact A6|]. split; [exact A4|apply mrefused_none; assumption].
       * apply IH in H. destruct H as (port & Hin & Hn & H). exists port.
         split; [right; exact Hin|]. split; [|exact H].
         intros Hu. apply Hn. apply in_or_app. left. exact Hu.
 Qed.
 
-Lemma dns_search_fail fx e l6 l4 ports : forall used cur le r,
-  fx_F21 fx = true ->
-  dns_search fx e l6 l4 ports used cur le = DFail r -> r = Fatal FDnsPortsBusy.
+Lemma dns_search_fail fx e rf l6 l4 ports : forall used cur le r,
+  fx_F21 fx = true -> fx_F131 fx = true ->
+  dns_search fx e rf l6 l4 ports used cur le = DFail r -> exists m, r = Fatal m.
 Proof.
-  induction ports as [|a ports IH]; intros used cur le r F H; cbn [dns_search] in H.
-  - rewrite F in H. injection H as <-. reflexivity.
+  induction ports as [|a ports IH]; intros used cur le r F F' H; cbn [dns_search] in H.
+  - rewrite F in H. injection H as <-. eauto.
   - destruct (memN a used).
     + eapply IH; eassumption.
     + destruct (at_port l6 a) as [x6 d6]. destruct (at_port l4 a) as [x4 d4].
-      destruct (mbind e UDP x6 x4).
-      * discriminate H.
-      * eapply IH; eassumption.
+      destruct (mrefused e rf UDP x6 x4) as [[f0 n0]|].
+      * injection H as <-. apply refused_result_fatal. exact F'.
+      * destruct (mbind e UDP x6 x4).
+        -- discriminate H.
+        -- eapply IH; eassumption.
 Qed.
 
 (* every listener address is the family's listen address *)
@@ -258,9 +317,9 @@ Proof.
   - destruct (nonempty (filter g (x :: l'))) eqn:Z; [reflexivity|rewrite Z; reflexivity].
 Qed.
 
-Lemma startup_no_crash c e : f_ipv4 (c_feat c) = true -> ok_result (startup c e).
+Lemma startup_full_no_crash c e rf : f_ipv4 (c_feat c) = true -> ok_result (startup_full c e rf).
 Proof.
-  intros Hv4. unfold startup, startup_gen. cbv zeta.
+  intros Hv4. unfold startup_full, startup_gen. cbv zeta.
   rewrite Hv4. cbn [negb all_fixed fx_F1 fx_F2 fx_F14 fx_F15 fx_F21].
   destruct (c_remote c); [|exact I]. cbn [negb].
   set (nslist0 := c_ns_hosts c ++ _).
@@ -276,18 +335,32 @@ Proof.
   (destruct l4 as [[ip4 p4]|]);
   (match goal with |- ok_result (match ?t with TBound _ _ _ _ _ _ => _ | TFail r => r end) =>
      destruct t as [rp6 rp4 tv6 tv4 used last_e|r] eqn:T;
-       [|apply tcp_search_fail in T; [rewrite T; exact I|reflexivity]] end);
+       [|apply tcp_search_fail in T; [destruct T as [m0 ->]; exact I|reflexivity|reflexivity]] end);
   (match goal with |- ok_result (match ?t with DBound _ _ _ _ => _ | DFail r => r end) =>
      destruct t as [dp6 dp4 dv6 dv4|r] eqn:D;
-       [|destruct (nonempty nslist0); [apply dns_search_fail in D; [rewrite D; exact I|reflexivity]|discriminate D]] end);
+       [|destruct (nonempty nslist0); [apply dns_search_fail in D; [destruct D as [m0 ->]; exact I|reflexivity|reflexivity]|discriminate D]] end);
   repeat (match goal with |- ok_result (if ?b then _ else _) => destruct b; [exact I|] end);
   exact I.
 Qed.
 
+Lemma startup_no_crash c e : f_ipv4 (c_feat c) = true -> ok_result (startup c e).
+Proof. apply startup_full_no_crash. Qed.
+
 (* ---------- c15_consistent ---------- *)
-Lemma startup_consistent c e p : cfg_ok c -> startup c e = Plan p -> consistent c e p.
+Lemma mbind_ok_fails e rf pr a6 a4 : mbind_ok e rf pr a6 a4 -> mbind (bind_fails e rf) pr a6 a4 = true.
 Proof.
-  intros Hok H. pose proof Hok as [Hv4 Hports]. unfold startup, startup_gen in H. cbv zeta in H.
+  intros (B & R6 & R4). apply mbind_true in B. destruct B as [B6 B4].
+  unfold mbind, bind_one, bind_fails in *.
+  destruct a6 as [[ip6 p6]|]; destruct a4 as [[ip4 p4]|]; cbn in *;
+    repeat match goal with
+           | H : match ?x with Some _ => _ | None => _ end = None |- _ => destruct x eqn:?; [discriminate H|]
+           end; try rewrite B6; try rewrite B4; reflexivity.
+Qed.
+
+Lemma startup_full_consistent c e rf p :
+  cfg_ok c -> startup_full c e rf = Plan p -> consistent c (bind_fails e rf) p.
+Proof.
+  intros Hok H. pose proof Hok as [Hv4 Hports]. unfold startup_full, startup_gen in H. cbv zeta in H.
   rewrite Hv4 in H. cbn [negb all_fixed fx_F1 fx_F2 fx_F14 fx_F15 fx_F21] in H.
   destruct (c_remote c); [|discriminate H]. cbn [negb] in H.
   set (nslist0 := c_ns_hosts c ++ _) in H.
@@ -322,11 +395,11 @@ Proof.
      match l4 with
      | Some (ip4, _) => Some (if ip_listed ip4 sub4 then exc0 else exc0 ++ [host_exclude V4 ip4])
      | None => Some exc0 end = Some excludes1 /\
-     match tcp_search all_fixed e (f_udp (c_feat c)) l6 l4 (if both then [0] else search_ports)
+     match tcp_search all_fixed e rf (f_udp (c_feat c)) l6 l4 (if both then [0] else search_ports)
              (if both then Some [] else Some []) false with
      | TFail r => r
      | TBound rp6 rp4 tv6 tv4 used last_e =>
-       match (if nonempty nslist0 then dns_search all_fixed e l6 l4 search_ports used false last_e
+       match (if nonempty nslist0 then dns_search all_fixed e rf l6 l4 search_ports used false last_e
               else DBound 0 0 None None) with
        | DFail r => r
        | DBound dp6 dp4 dv6 dv4 =>
@@ -354,14 +427,19 @@ Proof.
     (destruct l4 as [[ip4 p4]|]; eexists; (split; [reflexivity|exact H])). }
   clear H. destruct H2 as (excludes1 & HE1 & H).
   replace (if both then Some [] else Some (@nil N)) with (Some (@nil N)) in H by (destruct both; reflexivity).
-  destruct (tcp_search all_fixed e (f_udp (c_feat c)) l6 l4 (if both then [0] else search_ports) (Some []) false)
+  destruct (tcp_search all_fixed e rf (f_udp (c_feat c)) l6 l4 (if both then [0] else search_ports) (Some []) false)
     as [rp6 rp4 tv6 tv4 used last_e|r] eqn:T.
-  2:{ apply tcp_search_fail in T; [|reflexivity]. congruence. }
+  2:{ apply tcp_search_fail in T; [|reflexivity|reflexivity]. destruct T as [m0 T]. congruence. }
   apply tcp_search_bound in T.
   destruct T as (port & Hport & P6 & P4 & BT & BU & HF2). specialize (HF2 eq_refl). destruct HF2 as [U6 U4].
-  destruct (if nonempty nslist0 then dns_search all_fixed e l6 l4 search_ports used false last_e
+  destruct (if nonempty nslist0 then dns_search all_fixed e rf l6 l4 search_ports used false last_e
             else DBound 0 0 None None) as [dp6 dp4 dv6 dv4|r] eqn:D.
-  2:{ destruct (nonempty nslist0); [|discriminate D]. apply dns_search_fail in D; [|reflexivity]. congruence. }
+  2:{ destruct (nonempty nslist0); [|discriminate D]. apply dns_search_fail in D; [|reflexivity|reflexivity].
+      destruct D as [m0 D]. congruence. }
+  apply mbind_ok_fails in BT.
+  assert (BUf : f_udp (c_feat c) = true -> mbind (bind_fails e rf) UDP tv6 tv4 = true)
+    by (intros Eu; apply mbind_ok_fails; exact (BU Eu)).
+  clear BU. rename BUf into BU. set (e' := bind_fails e rf) in *.
   destruct (nonempty sub6' && negb (isSome l6)) eqn:K1; [discriminate H|].
   destruct (nonempty sub6' && (rp6 =? 0)) eqn:K2; [discriminate H|].
   destruct (nonempty ns6' && negb (nonempty nslist0 && isSome l6)) eqn:K3; [discriminate H|].
@@ -372,10 +450,10 @@ Proof.
   (* the DNS search, when it ran *)
   assert (DD : (nonempty nslist0 = false /\ dp6 = 0 /\ dp4 = 0 /\ dv6 = None /\ dv4 = None) \/
                (nonempty nslist0 = true /\ exists dport, In dport search_ports /\ ~ In dport used /\
-                  at_port l6 dport = (dv6, dp6) /\ at_port l4 dport = (dv4, dp4) /\ mbind e UDP dv6 dv4 = true)).
+                  at_port l6 dport = (dv6, dp6) /\ at_port l4 dport = (dv4, dp4) /\ mbind e' UDP dv6 dv4 = true)).
   { destruct (nonempty nslist0); [right|left].
     - split; [reflexivity|]. apply dns_search_bound in D. destruct D as (dport & A & B & C & D' & E).
-      exists dport. repeat split; assumption.
+      exists dport. repeat split; try assumption. apply mbind_ok_fails. exact E.
     - injection D as <- <- <- <-. repeat split. }
   clear D.
   (* facts about the resolved listen addresses *)
@@ -411,12 +489,12 @@ Proof.
                | Some (ip, pt) => exists p0, l6 = Some (ip, p0) /\ pt = dp6 /\ dp6 <> 0 /\ dp6 <= 65535 /\ ~ In dp6 used
                | None => dp6 = 0 end).
   { apply dns_reported. destruct DD as [(_ & -> & _ & -> & _)|(_ & dport & ? & ? & ? & ? & ?)]; [left; tauto|right; eauto]. }
-  assert (BD : bind_one e UDP V6 dv6 = true /\ bind_one e UDP V4 dv4 = true).
+  assert (BD : bind_one e' UDP V6 dv6 = true /\ bind_one e' UDP V4 dv4 = true).
   { destruct DD as [(_ & _ & _ & -> & ->)|(_ & dport & _ & _ & _ & _ & B)]; [split; reflexivity|].
     apply mbind_true. exact B. }
   destruct BD as [BD6 BD4].
   apply mbind_true in BT. destruct BT as [BT6 BT4].
-  assert (BU' : f_udp (c_feat c) = true -> bind_one e UDP V6 tv6 = true /\ bind_one e UDP V4 tv4 = true).
+  assert (BU' : f_udp (c_feat c) = true -> bind_one e' UDP V6 tv6 = true /\ bind_one e' UDP V4 tv4 = true).
   { intros E. apply mbind_true. exact (BU E). }
   clear BU DD.
   (* every listener address is the family's listen address *)
@@ -586,6 +664,10 @@ Proof.
 Qed.
 
 (* ---------- the shipped methods satisfy the standing assumptions ---------- *)
+
+Lemma startup_consistent c e p : cfg_ok c -> startup c e = Plan p -> consistent c e p.
+Proof. intros Hok H. exact (startup_full_consistent c e no_refusal p Hok H). Qed.
+
 Lemma shipped_methods_ok m f : In (m, f) method_features -> f_ipv4 f = true /\ f_loopback f = true.
 Proof.
   intros H. cbn in H.
@@ -645,7 +727,21 @@ Definition env_busy_top : env := env_of_ranges [(TCP, V4, 12299, 12300); (UDP, V
 
 Definition only_without (k : N) : fixes :=
   {| fx_F1 := negb (k =? 1); fx_F2 := negb (k =? 2); fx_F14 := negb (k =? 14);
-     fx_F15 := negb (k =? 15); fx_F21 := negb (k =? 21) |}.
+     fx_F15 := negb (k =? 15); fx_F21 := negb (k =? 21); fx_F131 := negb (k =? 131) |}.
+
+(* F131: --listen 10.99.99.99:0 where 10.99.99.99 is not an address of the machine (EADDRNOTAVAIL = 99) *)
+Definition ip_far : bytes := ip "10.99.99.99"%string.
+Definition w_F131 : cfg := w_base feat_nat LNone (LAddr ip_far 0).
+Definition rf_F131 : renv := renv_of_list [(TCP, V4, Some ip_far, 0, 65535, 99)].
+(* F131: --listen 127.0.0.1:80 without the privilege to bind ports below 1024 (EACCES = 13) *)
+Definition w_F131b : cfg := w_base feat_nat LNone (LAddr LOOP4 80).
+Definition rf_unpriv : renv := renv_of_list [(TCP, V4, None, 0, 1023, 13); (UDP, V4, None, 0, 1023, 13);
+                                             (TCP, V6, None, 0, 1023, 13); (UDP, V6, None, 0, 1023, 13)].
+(* F131 (second site): the DNS listener's bind is the one that is refused *)
+Definition w_F131c : cfg := with_ns (w_base feat_nat LNone (LAddr ip_far 0)) [ns4a].
+Definition rf_F131c : renv := renv_of_list [(UDP, V4, Some ip_far, 0, 65535, 99)].
+(* IPv6 switched off in the kernel: every IPv6 bind answers EADDRNOTAVAIL *)
+Definition rf_no_v6 : renv := renv_of_list [(TCP, V6, None, 0, 65535, 99); (UDP, V6, None, 0, 65535, 99)].
 
 Ltac solve_cfg_ok :=
   split; [reflexivity|];
@@ -659,6 +755,9 @@ Lemma w_F15_ok : cfg_ok w_F15. Proof. solve_cfg_ok. Qed.
 Lemma w_F21_ok : cfg_ok w_F21. Proof. solve_cfg_ok. Qed.
 Lemma w_F21b_ok : cfg_ok w_F21b. Proof. solve_cfg_ok. Qed.
 Lemma w_full_ok : cfg_ok w_full. Proof. solve_cfg_ok. Qed.
+Lemma w_F131_ok : cfg_ok w_F131. Proof. solve_cfg_ok. Qed.
+Lemma w_F131b_ok : cfg_ok w_F131b. Proof. solve_cfg_ok. Qed.
+Lemma w_F131c_ok : cfg_ok w_F131c. Proof. solve_cfg_ok. Qed.
 
 Lemma asfound_F1 : startup_asfound w_F1 free_env = Crash UnboundLocalError.
 Proof. vm_compute. reflexivity. Qed.
@@ -677,16 +776,38 @@ Lemma asfound_F15 : exists p, startup_asfound w_F15 free_env = Plan p /\
   p_group p = Some 1000 /\ f_group (c_feat w_F15) = false.
 Proof. eexists. split; [vm_compute; reflexivity|]. repeat split. Qed.
 
-(* each repair is needed on its own: with all the others applied the witness still fails *)
-Lemma needs_F1 : startup_gen (only_without 1) w_F1 free_env = Crash UnboundLocalError.
+Lemma asfound_F131 : startup_asfound_full w_F131 free_env rf_F131 = OsError 99.
 Proof. vm_compute. reflexivity. Qed.
-Lemma needs_F14 : startup_gen (only_without 14) w_F14 free_env = Crash TypeError.
+Lemma asfound_F131b : startup_asfound_full w_F131b free_env rf_unpriv = OsError 13.
 Proof. vm_compute. reflexivity. Qed.
-Lemma needs_F21 : startup_gen (only_without 21) w_F21 env_F21 = OsError EADDRINUSE.
+Lemma asfound_F131c : startup_asfound_full w_F131c free_env rf_F131c = OsError 99.
 Proof. vm_compute. reflexivity. Qed.
-Lemma needs_F2 : exists p, startup_gen (only_without 2) w_F2 free_env = Plan p /\ p_dport4 p = p_rport4 p.
+Lemma needs_F131 : startup_gen (only_without 131) w_F131 free_env rf_F131 = OsError 99.
+Proof. vm_compute. reflexivity. Qed.
+Lemma repaired_F131 : startup_full w_F131 free_env rf_F131 = Fatal FBindRefused.
+Proof. vm_compute. reflexivity. Qed.
+Lemma repaired_F131b : startup_full w_F131b free_env rf_unpriv = Fatal FBindRefused.
+Proof. vm_compute. reflexivity. Qed.
+Lemma repaired_F131c : startup_full w_F131c free_env rf_F131c = Fatal FDnsBindRefused.
+Proof. vm_compute. reflexivity. Qed.
+(* the one refusal the code as found already explains *)
+Lemma no_v6_explained : startup_asfound_full (w_base feat_nat LAuto LAuto) free_env rf_no_v6 = Fatal FV6Unavailable /\
+                        startup_full (w_base feat_nat LAuto LAuto) free_env rf_no_v6 = Fatal FV6Unavailable.
+Proof. split; vm_compute; reflexivity. Qed.
+(* a refusal somewhere else does not disturb a start-up that never binds there *)
+Lemma refusal_elsewhere : exists p, startup_full w_F1 free_env rf_F131 = Plan p /\ p_rport4 p = 5004.
 Proof. eexists. split; [vm_compute; reflexivity|]. reflexivity. Qed.
-Lemma needs_F15 : exists p, startup_gen (only_without 15) w_F15 free_env = Plan p /\ p_group p = Some 1000.
+
+(* each repair is needed on its own: with all the others applied the witness still fails *)
+Lemma needs_F1 : startup_gen (only_without 1) w_F1 free_env no_refusal = Crash UnboundLocalError.
+Proof. vm_compute. reflexivity. Qed.
+Lemma needs_F14 : startup_gen (only_without 14) w_F14 free_env no_refusal = Crash TypeError.
+Proof. vm_compute. reflexivity. Qed.
+Lemma needs_F21 : startup_gen (only_without 21) w_F21 env_F21 no_refusal = OsError EADDRINUSE.
+Proof. vm_compute. reflexivity. Qed.
+Lemma needs_F2 : exists p, startup_gen (only_without 2) w_F2 free_env no_refusal = Plan p /\ p_dport4 p = p_rport4 p.
+Proof. eexists. split; [vm_compute; reflexivity|]. reflexivity. Qed.
+Lemma needs_F15 : exists p, startup_gen (only_without 15) w_F15 free_env no_refusal = Plan p /\ p_group p = Some 1000.
 Proof. eexists. split; [vm_compute; reflexivity|]. reflexivity. Qed.
 
 (* the repaired code on the same inputs *)
